@@ -573,13 +573,56 @@ def r14_null_id_is_an_id(ctx):
     c02.r2_classifier_agreement(ctx)
 
 
+def r15_replies_are_decoded_from_their_text(ctx):
+    """the client accepts as a response exactly what the Response parser accepts: (a) replies are decoded from their text -
+    nothing on the client side parses a reply into a `serde_json::Value` and decodes the entries from there (a Value has
+    already dropped duplicate members, re-rendered numbers and applies its own depth limit, so the strict parser's
+    rejections and the payload round trip are lost); the only Value parse is the error formatter `unparse_error`;
+    (b) no client code looks at a decoded Response's `jsonrpc` member (absent, null and "2.0" are all accepted by the
+    parser and mean the same afterwards)."""
+    F, R = ctx.F, ctx.R
+    VAL = r"(^|<|, |&)(serde_json::Value|serde_json::value::Value|jsonrpsee_core::JsonValue|jsonrpsee_types::JsonValue)\b"
+    n = 0
+    for b in F.real_bodies():
+        if is_test_body(b) or not re.search(r"^<?jsonrpsee_(http_client|core::client|client_transport|ws_client)", b.path):
+            continue
+        n += 1
+        if re.search(r"async_client::unparse_error$", b.path):
+            continue
+        for c in b.calls:
+            nm = c.name() or ""
+            if (re.search(r"^serde_json::(de::)?(from_slice|from_str|from_reader|from_value)$|Deserialize<'\w+> for [^>]*>::deserialize$|Deserialize<'\w+>>::deserialize$", nm) and any(re.search(VAL, g) for g in (c.ga or []))):
+                R.fn(b)
+                R.bad("C15.R15", "%s:decodes-through-value" % fkey(b), "%s decodes a reply through serde_json::Value (%s): duplicate members, number spellings and nesting are normalised before the Response parser sees them, so it no longer rejects what it must reject and payloads do not round-trip" % (short(b.path), short(nm)), where(c))
+        for bi, blk in enumerate(b.blocks):
+            if blk.get("cleanup") or bi not in b.reachable:
+                continue
+            places = []
+            for st in blk["st"]:
+                if st["s"] == "assign":
+                    rv = st["rv"]
+                    for key in ("pl",):
+                        if key in rv:
+                            places.append((rv[key], st["sp"][0]))
+                    for key in ("op", "a", "b"):
+                        if key in rv and op_place(rv[key]) is not None:
+                            places.append((op_place(rv[key]), st["sp"][0]))
+            for pl, line in places:
+                fs = [e for e in pl.get("p", []) if isinstance(e, dict) and "f" in e]
+                if fs and fs[-1].get("n") == "jsonrpc" and re.search(r"(Response|ResponseSuccess)<", b.locals[pl["l"]]["ty"]):
+                    R.fn(b)
+                    R.bad("C15.R15", "%s:inspects-jsonrpc" % fkey(b), "%s looks at the `jsonrpc` member of a decoded response: a reply without the member (or with null) - which the parser accepts - is then treated differently from one that spells \"2.0\"" % short(b.path), "%s:%d" % (b.file, line))
+    R.ok("C15.R15", "client-decodes-from-text", "%d client bodies scanned" % n)
+    R.floor("C15.R15", n, 200, "client bodies scanned")
+
+
 def rids_wire_ids_derive_both(ctx):
     """ids are serialised and parsed by mirror-image (derived) impls"""
     from .common import wire_ids_derive_both
     wire_ids_derive_both(ctx, "C15.IDS")
 
 
-RULES = [r1_code_tables, r2_serializer, r3_field_tables, r4_duplicate_guards, r5_acceptance_table, r6_no_handmade_json, r7_no_borrowed_str, r8_into_owned_is_fieldwise, r9_client_tries_response_first, r10_http_errors_keep_the_envelope, r11_subscription_id_numbers_are_u64, r12_derived_writers_mirror_their_readers, r13_request_decoder_is_plain, r14_null_id_is_an_id, rids_wire_ids_derive_both]
+RULES = [r1_code_tables, r2_serializer, r3_field_tables, r4_duplicate_guards, r5_acceptance_table, r6_no_handmade_json, r7_no_borrowed_str, r8_into_owned_is_fieldwise, r9_client_tries_response_first, r10_http_errors_keep_the_envelope, r11_subscription_id_numbers_are_u64, r12_derived_writers_mirror_their_readers, r13_request_decoder_is_plain, r14_null_id_is_an_id, r15_replies_are_decoded_from_their_text, rids_wire_ids_derive_both]
 
 LEVEL_TEXT = (
     "Decision tables and structural facts extracted exactly from the type-checked serde code: the error-code tables are "
